@@ -46,6 +46,8 @@ func runC02(c *core.Check) {
 	}
 	info := pk.TypesInfo
 	c.Trust("golang.org/x/tools@v0.29.0 go/cfg", "gogen's CodeBuilder emits what its method names say (ForRange/RangeAssignThen/If/Then/End/Return/CallWith)")
+	// field coverage of the collection-sugar node kinds
+	c.Analysed("lower_field_kinds", lowerFieldsFor(c, map[string]bool{"ComprehensionExpr": true, "SliceLit": true, "MatrixLit": true, "ForPhraseStmt": true, "SendStmt": true}, c02FieldDerived))
 	compileExpr := pk.Types.Scope().Lookup("compileExpr")
 	isCompile := func(call *ast.CallExpr, field string, root types.Object) bool {
 		return calleeObj(info, call) == compileExpr && len(call.Args) >= 2 && isFieldOf(info, call.Args[1], root, field)
@@ -338,3 +340,6 @@ func runC02(c *core.Check) {
 		c.Bad("anchor", "cl.compileSliceLit", 0, "not found")
 	}
 }
+
+// c02FieldDerived: fields of the collection-sugar nodes the compiler deliberately does not read.
+var c02FieldDerived = map[string]string{}
